@@ -338,6 +338,33 @@ func checkProp(P *Prog, prop, tier string, perObl int, verbose, keep bool, t0 ti
 			keys = append(keys, k)
 		}
 	}
+	// family closure: the contracts of one server assume its global invariants
+	// (pointer validity, directory shape, cache coherence, allocator shape, ...)
+	// wherever state is loaded and check them wherever state is stored, so a
+	// property of that server is proved only if EVERY function of the server
+	// under contract preserves them: a check covers all functions under contract
+	// of every family (main server / simple / kvs / XDR codec) it has a function in
+	fams := map[string]bool{}
+	for _, k := range keys {
+		fams[familyOf(k)] = true
+	}
+	have := map[string]bool{}
+	for _, k := range keys {
+		have[k] = true
+	}
+	for k, s := range P.specs.Funcs {
+		if have[k] || s.Assume || (s.Inline && len(s.Ensures) == 0 && len(s.Props) == 0) || strings.Contains(k, "#") || strings.HasPrefix(k, "@") {
+			continue
+		}
+		if P.fnByKey[k] == nil && !s.Lemma {
+			continue
+		}
+		if f := familyOf(k); f != "" && fams[f] {
+			keys = append(keys, k)
+			have[k] = true
+		}
+	}
+	sort.Strings(keys)
 	// modular closure: the proof of a function uses the contracts of its
 	// callees, so a property's check also verifies every (non-assumed) callee
 	// under contract, transitively
@@ -466,4 +493,24 @@ func reachesHookedType(P *Prog, key string) bool {
 		return false
 	}
 	return visit(fn.Pkg.Pkg)
+}
+
+// familyOf names the server a function under contract belongs to.
+func familyOf(key string) string {
+	k := strings.TrimPrefix(key, "lemma:")
+	pkg := k
+	if i := strings.Index(k, "."); i >= 0 {
+		pkg = k[:i]
+	}
+	switch pkg {
+	case "simple":
+		return "simple"
+	case "kvs":
+		return "kvs"
+	case "nfstypes":
+		return "codec"
+	case "nfs", "inode", "dir", "fstxn", "alloctxn", "cache", "shrinker", "super", "fh", "dcache", "stats", "alloc", "marshal", "std", "buf", "util":
+		return "main"
+	}
+	return ""
 }
